@@ -50,6 +50,18 @@ func runC01(c *Ctx) {
 	c.Rule("R12", "hyper bulk insert: a shortcut leaf is made from leaves[0] only when the list has one element; the batch persisted is the one written", 2)
 	hyperLeafConservation(c, "R12")
 	hyperShortcutPersist(c, "R12")
+	hyperShortcutArgs(c, "R12")
+	hyperPushDownResets(c, "R12")
+	hyperOrderingConvention(c, "R7")
+	// proofs hold copies of what they read from the cache (shared with C10.R6)
+	sub10 := newCtx(c.P, c.Prop, c.Tier)
+	runC10(sub10)
+	for _, in := range sub10.Instances {
+		if in.Rule == c.Prop+".R6" {
+			in.Rule = c.Prop + ".R8"
+			c.Instances = append(c.Instances, in)
+		}
+	}
 	c.Rule("R10", "provers create a fresh hasher per query; the trees' long-lived stateful hashers are used only under the exclusive lock (a shared hasher corrupts concurrent proofs)", 2)
 	var hg []guardSpec
 	for _, g := range c10Guards {
